@@ -15,6 +15,7 @@ ENGINES = [
 ]
 
 HARNESSES = {
+    'C19': [dict(name='c19_threads', src=['C19_threads.cpp'], flavour='tsi')],
     'C16': [dict(name='c16_constrained', src=['C16_constrained.cpp'], flavour='asan')],
     'C15': [dict(name='c15_informed', src=['C15_informed.cpp'], flavour='asan')],
     'C14': [dict(name='c14_dubins', src=['C14_dubins.cpp'], flavour='asan', cflags=['-O2'])],
